@@ -54,8 +54,22 @@ def run(tier, seed):
             recs.append(('Z', zn, z))
             for u in samples(z, rnd, tier):
                 inp.append('U %d' % u); recs.append(('S',))
-                # the same number read as a wall-clock time, and the true wall-clock time of u
+                # the same number read as a wall-clock time
                 inp.append('L %d' % u); recs.append(('S',))
+            # wall-clock times at the images of the transitions (just before the gap / overlap, its first and last second, just
+            # behind it), in shuffled order so that the zone's range cache is not always primed by the conversion before
+            edges = []
+            offs = [z['off0']] + list(z['offs'])
+            tl = list(enumerate(z['trans']))
+            if tier != 'thorough' and len(tl) > 24: tl = rnd.sample(tl, 24)
+            for i, t in tl:
+                for o in (offs[i], offs[i + 1]):
+                    for dlt in (-1, 0, 1, -3600, 3600):
+                        w = t + o + dlt
+                        if tzif.LO + 2 * 86400 < w < tzif.HI - 2 * 86400: edges.append(w)
+            rnd.shuffle(edges)
+            for w in edges:
+                inp.append('L %d' % w); recs.append(('S',))
         # cache stress: revisit every zone of the group round-robin
         for rep in range(2):
             for zn in g:
